@@ -43,7 +43,7 @@ SKIP = {"row_order", "column_order", "shape", "is_empty", "inserted_row_idxs", "
         # legacy PairwiseSignificance summaries: position-valued unions over the DISPLAYED rows (no renumbering rule
         # is stated for them); not compared
         "summary_pairwise_indices", "columns_scale_mean_pairwise_indices", "columns_scale_mean_pairwise_indices_alt"}
-SKIP_PREFIX = ("_", "smoothed_")
+SKIP_PREFIX = ("_",)
 
 
 def _lazy_names(cls):
@@ -146,6 +146,10 @@ def gen_case(rng):
         rd = gen_dim(rng, R, C, cd.get("insertions", []))
         if "order" in cd and cd["order"].get("type") == "opposing_insertion":
             cd["order"]["insertion_id"] = rng.choice([i.get("id") for i in rd.get("insertions", [])] + [78])
+        if C.kind == "cat_date" and rng.random() < 0.6:
+            # smoothing runs over ALL periods before anything is hidden, pruned or re-ordered: the smoothed outputs
+            # re-index like every other measure
+            cd["smoother"] = {"function": "one_sided_moving_avg", "window": rng.choice([1, 2, 2, 3])}
         case["transforms"] = {"rows_dimension": rd, "columns_dimension": cd}
     # F51 (not a finding: missing array items are not evidenced in payloads): the column index is undefined when an
     # array item is flagged missing, and so is a sort by it
